@@ -123,6 +123,10 @@ func t1Internal(f []string) (string, bool) {
 		return boolStr(b), true
 	case "toabssymlink":
 		return enc(backupfs.VerifToAbsSymlink(dec(f[1]), dec(f[2]))), true
+	case "hlist":
+		return hlistEval(f), true
+	case "layer":
+		return layerEval(f), true
 	case "bisabs":
 		return boolStr(backupfs.VerifIsAbs(dec(f[1]))), true
 	}
